@@ -70,9 +70,9 @@ var systemContracts = []string{"proxy", "audit", "netmap", "balance", "reputatio
 func prmFor(sim *simchain.Sim, i int, ctx context.Context) deploy.Prm {
 	var prm deploy.Prm
 	prm.Logger = zap.NewNop()
-	if os.Getenv("VERIF_C13_LOG") != "" && i == 0 {
+	if lg := os.Getenv("VERIF_C13_LOG"); lg != "" && (i == 0 || lg == "all") {
 		l, _ := zap.NewDevelopment()
-		prm.Logger = l
+		prm.Logger = l.Named(fmt.Sprintf("m%d", i))
 	}
 	prm.Blockchain = sim.NewMember(ctx)
 	kc, _ := keys.NewPrivateKeyFromBytes(sim.Keys[i].Bytes())
@@ -529,4 +529,84 @@ func TestC13Deploy(t *testing.T) {
 			h.NonTrivial()
 		}
 	})
+}
+
+// parseSchedule reads "n;start,start,..;cancelMember,cancelAt,restartAfter[;absent,absent,..]".
+func parseSchedule(spec string) schedule {
+	parts := strings.Split(spec, ";")
+	var s schedule
+	fmt.Sscan(parts[0], &s.n)
+	for _, f := range strings.Split(parts[1], ",") {
+		var x int
+		fmt.Sscan(f, &x)
+		s.start = append(s.start, x)
+	}
+	s.absent = make([]bool, s.n)
+	s.cancelMember = -1
+	if len(parts) > 2 && parts[2] != "" {
+		fmt.Sscanf(parts[2], "%d,%d,%d", &s.cancelMember, &s.cancelAt, &s.restartAfter)
+	}
+	if len(parts) > 3 {
+		for _, f := range strings.Split(parts[3], ",") {
+			var x int
+			fmt.Sscan(f, &x)
+			s.absent[x] = true
+		}
+	}
+	return s
+}
+
+// c13Regressions are the shrunk schedules of earlier violations (all fixed in /repo); they are replayed by every run.
+var c13Regressions = []struct{ spec, what string }{
+	{"2;5,1;0,135,22", "fixed 4933dce: member 0 of 2 restarted while member 1 floods NEO distribution requests (Notary deposit exhausted, nobody can co-sign)"},
+	{"4;0,0,0,0;;1", "fixed a006c90: member 1 of 4 absent during the Notary bootstrap (leader stopped reading at the first missing signature)"},
+	{"2;0,0", "fixed a006c90: two members (the leader never read member 1's domain)"},
+	{"3;0,0,0;1,140,20", "a non-leading member of 3 restarted at the NEO distribution stage"},
+	{"4;3,0,7,1;0,150,30", "the leader of 4 restarted late"},
+}
+
+func TestC13Regressions(t *testing.T) {
+	theT = t
+	col := ev.New("C13", "regressions",
+		"the shrunk schedules of every violation found so far (and three neighbours) are replayed on the working tree: same oracle as the generated schedules; non-trivial = every schedule")
+	defer func() { col.Flush(true) }()
+	nshards, shard := envInt("VERIF_NSHARDS", 1), envInt("VERIF_SHARD_INDEX", 0)
+	for i, r := range c13Regressions {
+		if i%nshards != shard {
+			continue
+		}
+		s := parseSchedule(r.spec)
+		h := ev.NewHistory()
+		h.Op("regression %q: %s", r.spec, r.what)
+		h.Op("schedule: %s", s)
+		if !runCase(t, col, h, func() {
+			runSchedule(s, h, col)
+			h.NonTrivial()
+		}) {
+			return
+		}
+	}
+	col.SetExhaustive(true)
+}
+
+// TestC13Debug runs one explicit schedule (VERIF_C13_DEBUG="n;start,start,..;cancelMember,cancelAt,restartAfter"); a development aid, not registered as a check.
+func TestC13Debug(t *testing.T) {
+	spec := os.Getenv("VERIF_C13_DEBUG")
+	if spec == "" {
+		t.Skip("no schedule given")
+	}
+	theT = t
+	s := parseSchedule(spec)
+	h := ev.NewHistory()
+	col := ev.New("C13", "debug", "debug")
+	defer func() {
+		p := recover()
+		for _, l := range h.Ops {
+			t.Log(l)
+		}
+		if p != nil {
+			t.Fatalf("%v", p)
+		}
+	}()
+	runSchedule(s, h, col)
 }
